@@ -63,5 +63,8 @@ package antispoof
 // kernel compares) is the one read back from the map, not rebuilt from other state
 //@   ghost bpfLookups mathint = 0
 //@   ensures err == nil && old(m.bindings) != nil ==> bpfLookups == 1
+// a MAC that has no kernel entry yet gets a binding with no IPv4 half (never another subscriber's)
+//@   ghost bpfLookupHits mathint = 0
+//@   ensures err == nil && bpfLookupHits == 0 ==> existing.IPv4Valid == 0 && existing.IPv4Addr == 0
 //@   ensures err == nil && old(m.bindings) != nil ==> bpfPuts == 1 && bpfDeletes == 0
 //@   ensures err == nil && len(ipv6) == 16 ==> existing.IPv6Valid == 1 && existing.Mode == old(m.mode)
